@@ -106,9 +106,10 @@ pub struct FaultySource {
 }
 
 impl FaultySource {
-    pub fn new(table: &str, full_schema: &SchemaRef, parts: Arc<Vec<Vec<RecordBatch>>>, projection: Option<Vec<usize>>, ctl: Arc<Ctl>, endless: bool, token: Arc<()>) -> Result<Self> {
+    #[allow(clippy::too_many_arguments)]
+    pub fn new(table: &str, full_schema: &SchemaRef, parts: Arc<Vec<Vec<RecordBatch>>>, projection: Option<Vec<usize>>, ctl: Arc<Ctl>, endless: bool, declared_bounded: bool, token: Arc<()>) -> Result<Self> {
         let schema = datafusion_common::project_schema(full_schema, projection.as_ref())?;
-        let bounded = if endless { Boundedness::Unbounded { requires_infinite_memory: false } } else { Boundedness::Bounded };
+        let bounded = if endless && !declared_bounded { Boundedness::Unbounded { requires_infinite_memory: false } } else { Boundedness::Bounded };
         let props = PlanProperties::new(
             EquivalenceProperties::new(Arc::clone(&schema)),
             Partitioning::UnknownPartitioning(parts.len().max(1)),
@@ -201,6 +202,12 @@ impl Stream for FaultyStream {
             return Poll::Ready(None);
         }
         let f = self.ctl.fault.clone();
+        if f.kind == "src_swallow" && f.table == self.table && f.part == self.part && f.k == self.pos {
+            // self-test of the oracle: behave like an operator that turns the input error into end-of-stream
+            self.ctl.fired.store(true, AO::SeqCst);
+            self.failed = true;
+            return Poll::Ready(None);
+        }
         if (f.kind == "src_err" || f.kind == "src_panic") && f.table == self.table && f.part == self.part && f.k == self.pos {
             self.ctl.fired.store(true, AO::SeqCst);
             self.failed = true;
@@ -256,6 +263,8 @@ pub struct FaultyTable {
     pub parts: Arc<Vec<Vec<RecordBatch>>>,
     pub ctl: Arc<Ctl>,
     pub endless: bool,
+    /// endless, but declared `Bounded` so that pipeline-breaking operators are planned over it
+    pub declared_bounded: bool,
     pub token: Arc<()>,
 }
 
@@ -275,6 +284,7 @@ impl TableProvider for FaultyTable {
             projection.map(|p| p.to_vec()),
             Arc::clone(&self.ctl),
             self.endless,
+            self.declared_bounded,
             Arc::clone(&self.token),
         )?))
     }
